@@ -101,9 +101,11 @@ CLAIMED = {
         "matching a well-formed filter satisfies its WHERE predicate (rows pairwise distinct). The classes where the "
         "current code is incomplete are Lean witnesses + known findings. Tie/search as C01, plus the oracle 'strict matches "
         "under the limit are all delivered once' with every planner index exercised (distribution in the evidence).",
-        "Partial: filter-level corollaries are proved for kinds filters and for authors filters; for author+kind they stop at the "
-        "scanner level (the plan's match list is taken as given, in descending order); the variable-width tag index and "
-        "MultiIndex plans are covered by the conditional theorem, the witness of the open finding kv-tag-prefix-since and "
+        "Props/C02Tags.lean: the same for the variable-width tag index under the two hypotheses the open findings show to be "
+        "necessary (no `since`; no NUL in stored indexed tags nor in the requested names / values): C02_kv_tags_complete_nosince, "
+        "C02_kv_tags_filter_complete, incl. that the planner's own sort hands the match values over in strictly descending order. "
+        "Partial: with `since`, with NUL characters, and for MultiIndex plans the tag index is covered by the conditional theorem "
+        "(C02_kv_scan_complete), the witnesses of the open findings kv-tag-prefix-since / kv-tag-nul-extension-window and "
         "the search only. Trusted: as C01. Domain: well-formed conjunctive filters (not {} / pure unbounded range scans, "
         "ids/authors of 64 hex digits, no `search`).",
         "DESIGN.md §6 C02",
